@@ -23,6 +23,7 @@ import (
 	"github.com/miekg/dns"
 	"github.com/semihalev/sdns/internal/dnsclient"
 	"github.com/semihalev/sdns/internal/dnsname"
+	"github.com/semihalev/sdns/internal/dnsutil"
 	"github.com/semihalev/sdns/internal/verif/vlib"
 	"github.com/semihalev/sdns/middleware/cache"
 	"github.com/semihalev/sdns/middleware/resolver"
@@ -696,6 +697,55 @@ func execCachef(f []string) vlib.Res {
 	}
 	tags := ""
 	if len(abs) >= 2 {
+		tags = "nt"
+	}
+	return vlib.Res{Impl: "keep=" + listOrDash(kept), Oracle: or, Tags: tags}
+}
+
+// execRelay: dnsutil.FilterRRsToZone exactly as Resolver.answer applies it to
+// the upstream's answer section (zone = the zone whose servers were asked).
+func execRelay(f []string) vlib.Res {
+	zone := f[2]
+	var owners []string
+	var rrs []dns.RR
+	for _, e := range splitList(f[3], ";") {
+		p := strings.Split(e, "/")
+		typ := uint16(vlib.Atoi(p[1]))
+		owners = append(owners, p[0])
+		hdr := dns.RR_Header{Name: p[0], Rrtype: typ, Class: dns.ClassINET, Ttl: 30}
+		switch typ {
+		case dns.TypeRRSIG:
+			rrs = append(rrs, &dns.RRSIG{Hdr: hdr, TypeCovered: uint16(vlib.Atoi(p[2])), SignerName: "s."})
+		case dns.TypeDNAME:
+			rrs = append(rrs, &dns.DNAME{Hdr: hdr, Target: "t."})
+		case dns.TypeCNAME:
+			rrs = append(rrs, &dns.CNAME{Hdr: hdr, Target: "www.victim.test."})
+		case dns.TypeNS:
+			rrs = append(rrs, &dns.NS{Hdr: hdr, Ns: "ns.evil.test."})
+		case dns.TypeA:
+			rrs = append(rrs, &dns.A{Hdr: hdr, A: net.IPv4(198, 18, 66, 66)})
+		default:
+			rrs = append(rrs, &dns.RFC3597{Hdr: hdr, Rdata: ""})
+		}
+	}
+	out := dnsutil.FilterRRsToZone(rrs, zone)
+	var kept []string
+	or := "ok"
+	j := 0
+	for i, rr := range rrs {
+		if j < len(out) && out[j] == rr {
+			kept = append(kept, fmt.Sprint(i))
+			j++
+			if !oInside(zone, owners[i]) {
+				or = fail("relay/kept-record-owned-outside-asked-zone", "zone=%s owner=%s", zone, owners[i])
+			}
+		}
+	}
+	if j != len(out) {
+		or = fail("relay/invented-or-reordered-records", "")
+	}
+	tags := ""
+	if len(rrs) >= 2 {
 		tags = "nt"
 	}
 	return vlib.Res{Impl: "keep=" + listOrDash(kept), Oracle: or, Tags: tags}
